@@ -47,10 +47,11 @@ def all_formal(ctx: Ctx):
 def tables_used(ctx: Ctx, qual, pred, kinds=("index", "get")):
     """Distinct folded dict tables looked up in function `qual` that satisfy pred(table)."""
     seen = []
-    for kind, v, text, key, node in ctx.table_lookups(qual):
-        if kind in kinds and isinstance(v, dict) and pred(v):
-            if not any(v is s[0] or v == s[0] for s in seen):
-                seen.append((v, text, node))
+    for q2 in ctx.helper_closure(qual):
+        for kind, v, text, key, node in ctx.table_lookups(q2):
+            if kind in kinds and isinstance(v, dict) and pred(v):
+                if not any(v is s[0] or v == s[0] for s in seen):
+                    seen.append((v, text, node))
     return seen
 
 
@@ -82,6 +83,13 @@ def one(tables, what):
 def membership_branches(ctx: Ctx, qual):
     """For each `if X in S` / `A if X in S else B` in the function where S folds to a set of
     qualified names: (subject text, set value, set text, calls in true arm, calls in false arm, node)."""
+    out = []
+    for q2 in ctx.helper_closure(qual):
+        out += _membership_branches_one(ctx, q2)
+    return out
+
+
+def _membership_branches_one(ctx: Ctx, qual):
     fi = ctx.fn(qual)
     out = []
     for n in walk_function(fi.node):
@@ -331,10 +339,15 @@ def string_keys_read(ctx: Ctx, qual):
 
 def json_envelope(ctx: Ctx):
     w, r = {}, {}
+    encs, decs = [], []
     for q in ENC_JSON:
+        encs += [x for x in ctx.helper_closure(q) if x not in encs and x.startswith(JS + ".")]
+    for q in DEC_JSON:
+        decs += [x for x in ctx.helper_closure(q) if x not in decs and x.startswith(JS + ".")]
+    for q in encs:
         for k, n in string_keys_written(ctx, q).items():
             w.setdefault(k, (q, n))
-    for q in DEC_JSON:
+    for q in decs:
         for k, n in string_keys_read(ctx, q).items():
             r.setdefault(k, (q, n))
     return w, r
@@ -422,6 +435,13 @@ def c01_r5(ctx: Ctx, rule):
 
 def scope_reads(ctx: Ctx, qual):
     """Namespace-declaration reads in a container writer: list of (what, root text, node)."""
+    out = []
+    for q2 in ctx.helper_closure(qual, depth=1):
+        out += _scope_reads_one(ctx, q2)
+    return out
+
+
+def _scope_reads_one(ctx: Ctx, qual):
     fi = ctx.fn(qual)
     out = []
     REG = {"get_registered_namespaces", "namespaces"}
@@ -583,8 +603,16 @@ def c02_r6(ctx: Ctx, rule):
                     continue
                 if isinstance(k, str):
                     for s in n.body:
+                        cands = []
                         if isinstance(s, ast.Assign):
-                            v = ctx.eval_in(rq, s.value)
+                            cands.append(s.value)
+                        elif isinstance(s, ast.Return) and s.value is not None:
+                            cands.append(s.value.value if isinstance(s.value, ast.Subscript) else s.value)
+                        for cexpr in cands:
+                            try:
+                                v = ctx.eval_in(rq, cexpr)
+                            except AnalysisError:
+                                v = None
                             if isinstance(v, NS):
                                 special[k] = v
     for ns, what in ((xsd, "xsd"), (prov, "prov")):
@@ -980,6 +1008,15 @@ def c10_r2(ctx: Ctx, rule):
                  "a schema-aware reader does not recognise xsi:type='xsd:int' (the library's own reader accepts both spellings)")
     nsx = ctx.fn(XM + "._ns_xml")
     xml_ns = [s for s in const_strings(nsx.node) if s.startswith("http")]
+    if not xml_ns:
+        for n in walk_function(nsx.node):
+            if isinstance(n, ast.Return) and isinstance(n.value, ast.Call) and n.value.args:
+                try:
+                    v = ctx.eval_in(nsx.qual, n.value.args[0])
+                except AnalysisError:
+                    v = None
+                if isinstance(v, str):
+                    xml_ns = [v]
     res.ob("xml namespace = %s" % xml_ns)
     if xml_ns != [sd["namespaces"]["xml"]]:
         res.fail(rule.id, "xml-spec::namespace::xml", ctx.loc(XM, nsx.node), "xml namespace is %s" % xml_ns)
